@@ -534,3 +534,36 @@ def run(index, rep, tier):
         rep.floor("R10.15", "look-up methods of TaxonNamespace", 5, na)
         nbm = bitmask_algebra_rule(index, rep, "R10.15", ["dendropy.datamodel.taxonmodel"])
         rep.floor("R10.15", "bitmask operations in the namespace code", 3, nbm)
+
+    # ---- R10.16 nothing in the library resolves a label through the last-wins dictionary
+    with rep.section("R10.16"):
+        rep.rule("R10.16", "nothing in the library resolves a label through the last-wins dictionary: TaxonNamespace.label_taxon_map() fills `d[t.label] = t` in membership order and so keeps the LAST member carrying a label (and is a snapshot that does not see members created afterwards). No library function calls it - tables that serve look-ups (the NEXUS / Newick symbol mapper, copy constructors that re-map taxa) are filled first-wins or ask require_taxon / get_taxon, so that a label means the same member by every route")
+        ncall = 0
+        for mod in sorted(index.modules):
+            for f in index.functions_in_module(mod):
+                for c in calls_in(f.node, nested=True):
+                    if call_name(c) == "label_taxon_map" and isinstance(c.func, ast.Attribute):
+                        ncall += 1
+                        rep.check(False, "R10.16", f.qualname, "labels resolved through label_taxon_map()", fn_where(f, c), "",
+                                  "%s resolves labels through `%s`: the dictionary keeps the LAST of several members with one label (duplicates left by the 'add' import strategy, case variants in a case-insensitive namespace) and does not see members created after it was taken - this route binds a label to another member than require_taxon / get_taxon do (or creates one taxon per occurrence), so equal labels end up on different Taxon objects" % (f.qualname, norm(c)[:60]))
+        ltm = index.klass(TNS).methods.get("label_taxon_map")
+        if ltm is None:
+            raise AnalysisError("R10.16: TaxonNamespace.label_taxon_map is gone")
+        rep.ob("R10.16", ltm.qualname, "%d library functions scanned for calls of label_taxon_map(): %d" % (sum(len(list(index.functions_in_module(m))) for m in index.modules), ncall), fn_where(ltm))
+        # (b) the symbol mapper's own table is filled first-wins
+        rsm = index.function("dendropy.dataio.nexusprocessing.NexusTaxonSymbolMapper.reset_supplemental_mappings")
+        nst = 0
+        for loop in [x for x in walk_no_nested(rsm.node) if isinstance(x, ast.For)]:
+            for st in ast.walk(loop):
+                if isinstance(st, ast.Assign) and any(isinstance(t, ast.Subscript) and norm(t.value) == "self.label_taxon_map" for t in st.targets):
+                    nst += 1
+                    pm_ = parent_map(rsm.node)
+                    cur, ok_ = pm_.get(st), False
+                    prev = st
+                    while cur is not None and cur is not loop:
+                        if isinstance(cur, ast.If) and prev in cur.body and any(isinstance(x, ast.Compare) and len(x.ops) == 1 and isinstance(x.ops[0], ast.NotIn) and norm(x.comparators[0]) == "self.label_taxon_map" for x in ast.walk(cur.test)):
+                            ok_ = True
+                        prev, cur = cur, pm_.get(cur)
+                    rep.check(ok_, "R10.16", rsm.qualname, "label table filled last-wins", fn_where(rsm, st), "the mapper's label table keeps the first member with a label (`not in` guard)",
+                              "%s stores `%s` for every member without first testing that the label is not in the table yet: the last of several members with one label wins, while TaxonNamespace.require_taxon / get_taxon answer with the first - a tree read into such a namespace binds its leaves to another Taxon than the one look-ups by the same label return" % (rsm.qualname, norm_stmt(st)[:60]))
+        rep.floor("R10.16", "stores into the mapper's label table while walking the namespace", 1, nst)
